@@ -141,7 +141,7 @@ runnable at a time, see the harness) -/
 def QD.nextInternal (d : QD) : Option Label :=
   let cands : List Label :=
     d.prods.flatMap (fun p => [.wakeTok p, .wakeCtx p, .relockTok p, .relockCtx p, .getRes p, .resCtx p]) ++
-    (match d.s.cwait with | c :: _ => [Label.recheck c] | [] => [])
+    (match d.s.cwoken with | c :: _ => [Label.recheck c] | [] => [])
   cands.find? (fun l => (d.fireF l).isSome)
 
 def QD.applyLabel (d : QD) (l : Label) : Option QD :=
@@ -151,7 +151,7 @@ def QD.applyLabel (d : QD) (l : Label) : Option QD :=
     let cons := match l with
       | .read c | .recheck c =>
         if s'.handed.length > d.s.handed.length then setCons d.cons c s!"i{s'.handed.getLast?.getD 0}"
-        else if c ∈ s'.cwait then setCons d.cons c "B"
+        else if c ∈ s'.cwait ∨ c ∈ s'.cwoken then setCons d.cons c "B"
         else setCons d.cons c "S"
       | _ => d.cons
     some { d with s := s', cons := cons }
@@ -172,6 +172,14 @@ def QD.ext (d : QD) (l : Label) : QD × List String :=
 
 def parseBool (s : Option String) : Bool := s = some "1"
 
+def parseBurst : List String → Option (List (Nat × Int))
+  | [] => some []
+  | p :: el :: rest =>
+    match p.toNat?, el.toInt?, parseBurst rest with
+    | some p, some el, some r => some ((p, el) :: r)
+    | _, _, _ => none
+  | _ => none
+
 def mkQueueHandler (persistent : Bool) : Handler QD where
   init := { persistent := persistent }
   onCase := fun d toks =>
@@ -187,6 +195,16 @@ def mkQueueHandler (persistent : Bool) : Handler QD where
       | ["cancel", p] =>
         match p.toNat? with
         | some p => d.ext (.cancel p)
+        | none => (d, ["obs bad-op"])
+      | "burst" :: rest =>
+        -- one goroutine issues several Offers back to back: no goroutine step in between, then run to quiescence
+        match parseBurst rest with
+        | some offers =>
+          let r := offers.foldl (fun (acc : Option QD) (o : Nat × Int) =>
+            acc.bind (fun d => ({ d with prods := insertSorted o.1 d.prods } : QD).applyLabel (.offer o.1 o.2))) (some d)
+          match r with
+          | some d' => let d2 := QD.closure 10000 d'; (d2, [d2.obs])
+          | none => ({ d with bad := true }, ["obs bad-step"])
         | none => (d, ["obs bad-op"])
       | ["read", c] =>
         match c.toNat? with
